@@ -124,6 +124,9 @@ def parseMOp? (ws : List String) : Option MOp :=
   | ["advdrop", d, i] => do pure (MOp.advDrop (← d.toNat?) (← i.toNat?))
   | ["fail"] => some .fail
   | ["advfail", d] => d.toNat?.map MOp.advFail
+  -- the handler PANICS instead of returning `Err`: ractor catches it, the same `ActorFailed`
+  | ["failp"] => some .fail
+  | ["advfailp", d] => d.toNat?.map MOp.advFail
   | ["hold"] => some .hold
   | ["psrelease"] => some .psrelease
   | _ => none
